@@ -1576,6 +1576,24 @@ func ruleLex8(c *Ctx) {
 		switch kind {
 		case "SYM":
 			check("parser/lexer.newLexicon", "identifier rule", re, false, call.pos)
+			// the three places that say what a word character is agree: the identifier token (SYM), the routing of
+			// identifier-like operators to the whole-word rule (oper.idReg behind IsIdentOp) and the whole-word look-ahead
+			// (keywordPostfix). A class widened in one of them only (combining marks, other digits, ..) lets an operator
+			// spelled with such characters be registered as a plain prefix and split identifiers that start with it.
+			id := c.regexpVar("parser/oper", "idReg")
+			kpRe := c.regexpVar("parser/lexer", "keywordPostfix")
+			if id != nil && kpRe != nil {
+				bad := ""
+				for _, w := range []string{"a", "Z", "_", "0", "9", "é", "并", "ß", "Ж", "\u0301", "\u093e", "\u0e37", "\u0663", "\u2177", "\u02b0", "\u203f", "$", "-", "'"} {
+					symC := re.FindString("a"+w) == "a"+w
+					idC := id.MatchString("a" + w)
+					kpC := kpRe.FindString(w) != ""
+					if symC != idC || symC != kpC {
+						bad = fmt.Sprintf("%q (U+%04X): identifier token %v, identifier-like operator %v, whole-word look-ahead %v", w, []rune(w)[0], symC, idC, kpC)
+					}
+				}
+				c.R.Check(bad == "", "parser/lexer.newLexicon", "LEX-8 identifier token, operator routing and look-ahead agree on word characters", call.pos, "same answer for witness characters of the letter, mark, digit, letter-number, modifier and connector categories", "the three definitions of a word character disagree on "+bad+": an operator spelled with such characters is registered as a plain prefix (or an identifier is cut at it)")
+			}
 		case "NUM":
 			nums++
 			bad := ""
